@@ -413,3 +413,33 @@ pub fn c09(quick: bool) -> PropRun {
         "every explored execution: Reliable packets submitted before disconnect() are delivered to the peer before its Disconnect event (unless the peer disconnects itself); once a disconnect request is on the wire both ends report a terminal event within 22 s + one step per retry; nothing after it (C08 automaton)",
         json!({"d": d, "queued_data": "0, 1, 3, 8 packets of mixed modes incl. multi-fragment", "who": "client or server, disconnect() or disconnect_now()", "blackouts": "to server / to client / both, permanent, from every round of the window"})) }
 }
+
+// ------------------------------------------------------------------------------------------------
+/// Endpoint-world scenarios for C02 / C11: the user-visible form of "no stall". Default time-outs and
+/// windows; faults are single frames lost / duplicated / held and pauses of up to 2 s (C02), or a
+/// blackout shorter than the active time-out (C11); afterwards the network is fair.
+pub fn survive_scenarios(quick: bool, c11: bool) -> Vec<Scenario> {
+    let mut scs = Vec::new();
+    use SendMode::*;
+    let scripts: Vec<(&str, Vec<EwOp>)> = vec![
+        ("bulk-up", vec![at(0, Act::Connect(0)), after_c(0, 1, Act::CSend(0, 0, Reliable, 6000)), after_c(0, 1, Act::CSend(0, 1, Unreliable, 100)), after_c(0, 4, Act::CSend(0, 0, Reliable, 50))]),
+        ("both-ways", vec![at(0, Act::Connect(0)), after_c(0, 1, Act::CSend(0, 0, Reliable, 3000)), after_s(0, 1, Act::SSend(0, 0, Reliable, 3000)), after_c(0, 5, Act::CSend(0, 1, Reliable, 10)), after_s(0, 6, Act::SSend(0, 1, Persistent, 1500))]),
+        ("small-then-idle-then-more", vec![at(0, Act::Connect(0)), after_c(0, 1, Act::CSend(0, 0, Reliable, 20)), after_c(0, 80, Act::CSend(0, 0, Reliable, 4000)), after_s(0, 90, Act::SSend(0, 0, Reliable, 100))]),
+    ];
+    for (name, script) in scripts {
+        let cfg = EwCfg::new(1);
+        let mut env = EwEnv::basic(if quick { 6 } else { 9 }, 450);
+        env.dev_start = 1; env.fate_types = &[10, 11, 12]; env.fates = DF_BASIC; env.deltas = &[100, 0, 2000]; env.fair_delta = 100; env.stop_when_done = false;
+        if c11 {
+            // application pauses well below the active time-out: up to two (three) pauses of 5 s, or one pause of 15 s, plus single losses
+            env.fates = DF_LOSS; env.deltas = &[100, 5000]; env.dev_rounds = if quick { 8 } else { 12 };
+            let mut env15 = env.clone(); env15.deltas = &[100, 15_000]; env15.fates = DF_NONE;
+            scs.push(sc(&format!("C11.survive-one-15s-pause.{}", name), &cfg, script.clone(), env15, 1, EO_SURVIVE_C11));
+            // single frame faults and short pauses, then a long idle period
+            let mut envf = env.clone(); envf.fates = DF_BASIC; envf.deltas = &[100, 0, 2000]; envf.dev_rounds = if quick { 6 } else { 9 }; envf.max_rounds = 700;
+            scs.push(sc(&format!("C11.survive-then-idle.{}", name), &cfg, script.clone(), envf, if quick { 2 } else { 3 }, EO_SURVIVE_C11));
+        }
+        scs.push(sc(&format!("{}.survive.{}", if c11 { "C11" } else { "C02" }, name), &cfg, script, env, if quick { 2 } else { 3 }, if c11 { EO_SURVIVE_C11 } else { EO_SURVIVE_C02 }));
+    }
+    scs
+}
